@@ -21,7 +21,9 @@ F64 = [0.0, -0.0, 1.0, -1.0, float("inf"), float("-inf"), 5e-324, -5e-324, 2.225
 F32_BITS = [0, 0x80000000, 0x7f800000, 0xff800000, 1, 0x007fffff, 0x00800000, 0x7f7fffff, 0x3f800000,
             0xbf800000, 0x40490fdb, 0x3dcccccd]
 ADDRS = [(1, "10.0.0.1"), (1, "255.255.255.255"), (1, "0.0.0.0"), (2, "::1"), (2, "2001:db8::1"),
-         (2, "ffff:ffff:ffff:ffff:ffff:ffff:ffff:ffff"), (8, "41780009999"), (8, ""), (8, "abc")]
+         (2, "ffff:ffff:ffff:ffff:ffff:ffff:ffff:ffff"), (8, "41780009999"), (8, ""), (8, "abc"),
+         # IPv6 text forms that embed a dotted quad (what inet_ntop itself prints for mapped / compatible addresses)
+         (2, "::ffff:192.0.2.128"), (2, "::13.1.68.3"), (2, "64:ff9b::198.51.100.7"), (2, "::"), (1, "127.0.0.1")]
 
 
 def gen_value(ty, rng, depth, rows_by_ty, boundary_idx=None):
